@@ -17,6 +17,7 @@ ROOT = os.path.dirname(os.path.dirname(os.path.abspath(__file__)))
 ORIGIN = {
     0: "written by an independent sub-agent that saw only the property text, the list of ideas already used in earlier rounds, and a scratch worktree of /repo (nothing from /verif)",
     6: "written by an independent sub-agent that saw only the property text and a scratch worktree of /repo (nothing from /verif); asked for ordinary maintainer mistakes",
+    8: "written by an independent sub-agent that saw only the property text and a scratch worktree of /repo (nothing from /verif); asked for changes in the shape of a pull request (refactoring, optimisation or small feature of 10-60 lines)",
     7: "written by an independent sub-agent that saw only the property text, the list of functions no earlier seeded change had touched (both changes had to be placed there), and a scratch worktree of /repo (nothing from /verif)",
 }
 
